@@ -233,6 +233,12 @@ def main(argv=None):
   violations, known_hits, nonrepro = [], [], []
   if candidates:
     rtasks = []
+    no_replay = [r for r in candidates if not r.get('replay')]
+    for r in no_replay:
+      r['verdict'] = 'unknown'
+      r['reason'] = 'solver found a witness but this query has no replay procedure on the real code'
+      unknown.append(r)
+    candidates = [r for r in candidates if r.get('replay')]
     for i, r in enumerate(candidates):
       rtasks.append(('replay%d' % i, 'replay', r, 600))
     rout = run_tasks(modname, rtasks, a.jobs, log)
